@@ -83,7 +83,7 @@ def _multi_tasked_steps(events):
 # ------------------------------------------------------------------------------------------
 def spec_level(ctx: Ctx):
     """Exhaustive model checking of the as-designed model + spec mutants."""
-    designed = ["greedy22", "munkres22", "random22", "greedy22_2eng", "greedy22_ser"]
+    designed = ["greedy22", "munkres22", "random22", "greedy22_2eng", "greedy22_ser", "truthonly", "faults"]
     if not ctx.quick:
         designed += ["munkres23", "greedy32", "random23"]
     mutants = {"coded_reset": "PointingReflectsTasking", "coded_squared": "OneRecordPerTasking",
